@@ -1251,9 +1251,14 @@ def replay(path):
     run_, obs = run_impl(ops, oracle=True)
     for o, ob in zip(ops, obs):
         print("%-40s -> %s" % (enc_op(o), ob))
+    known = [e["key"] for e in common.known_findings("C08")]
+
+    def is_known(key):
+        return any(key == k or key.startswith(k + ":") for k in known)
     for st, key, what in run_.failures:
-        print("ORACLE step %d [%s]: %s" % (st + 1, key, what))
-    bad = bool(run_.failures)
+        print("%s step %d [%s]: %s" % ("KNOWN-FINDING" if is_known(key) else "ORACLE", st + 1, key, what))
+    # a listed known finding met on the way is not what this replay is about
+    bad = any(not is_known(key) for _, key, _ in run_.failures)
     if r.get("kind") == "correspondence" and r.get("stream") == "world.hist":
         mo = model_obs([ops])[0]
         d = first_diff(obs, mo)
